@@ -135,6 +135,18 @@ class Locals:
             raise Unsupported(f"invariant refers to unknown local {name!r}") from None
 
 
+def call_handler(h: Any, *args: Any, **kwargs: Any) -> Any:
+    """Invoke a contract handler.  A handler whose signature cannot take the call the real code now makes (a
+    new keyword argument, say) means the *contract* is out of date with the code: undecided, never a crash."""
+    try:
+        inspect.signature(h).bind(*args, **kwargs)
+    except TypeError as e:
+        raise Unsupported(f"by-contract handler {getattr(h, '__qualname__', h)!r} does not accept this call: {e}") from None
+    except ValueError:
+        pass
+    return h(*args, **kwargs)
+
+
 def qual_of(fn: Any) -> str:
     fn = unwrap(fn)
     return f"{getattr(fn, '__module__', '?')}.{getattr(fn, '__qualname__', getattr(fn, '__name__', '?'))}"
@@ -283,14 +295,14 @@ class Interp:
         if isinstance(f, Closure):
             h = S.handlers.get(f.qualname)
             if h is not None:
-                return h(S, *args, **kwargs)
+                return call_handler(h, S, *args, **kwargs)
             return self.call_closure(f, args, kwargs)
         if isinstance(f, BoundMethod):
             h = self.find_handler(f.fn) if f.fn is not None else None
             if h is None and isinstance(f.obj, SObj):
                 h = S.handlers.get(f"{f.obj.kind}.{f.name}")
             if h is not None:
-                return h(S, f.obj, *args, **kwargs)
+                return call_handler(h, S, f.obj, *args, **kwargs)
             if f.fn is None:
                 raise Unsupported(f"no contract for method {f.obj.kind}.{f.name}")
             return self.dispatch_repo_function(f.fn, [f.obj] + args, kwargs)
@@ -310,7 +322,7 @@ class Interp:
             return S.handlers[f"{f.kind}.__call__"](S, f, *args, **kwargs)
         h = self.find_handler(f)
         if h is not None:
-            return h(S, *args, **kwargs)
+            return call_handler(h, S, *args, **kwargs)
         recv0 = getattr(f, "__self__", None)
         if recv0 is not None and not inspect.ismodule(recv0):
             # per-object handler for a method of a concrete object, e.g. (a_context_var, "get")
@@ -319,7 +331,7 @@ class Interp:
             except TypeError:
                 hk = None
             if hk is not None:
-                return hk(S, *args, **kwargs)
+                return call_handler(hk, S, *args, **kwargs)
         m = self.models.lookup_builtin(f)
         if m is not None:
             return m(self, *args, **kwargs)
@@ -345,7 +357,7 @@ class Interp:
         fn = unwrap(fn)
         h = self.find_handler(fn)
         if h is not None:
-            return h(S, *args, **kwargs)
+            return call_handler(h, S, *args, **kwargs)
         q = getattr(fn, "__qualname__", "")
         full = qual_of(fn)
         if q in S.inline or full in S.inline or "*" in S.inline:
@@ -1272,11 +1284,16 @@ class Interp:
                     if isinstance(static, types.FunctionType):
                         return BoundMethod(obj, static, name)
                     if isinstance(static, (types.MemberDescriptorType,)):
+                        if not obj.closed:
+                            raise Unsupported(f"contract view of {obj.kind} has no field {name!r} (slot not listed by the view)")
                         raise self.mkraise(SExc(AttributeError, (f"{obj.kind} object has no attribute {name!r} (unset slot)",)))
                     return static
             if h is not None:
                 return BoundMethod(obj, None, name)
-            if obj.cls is None and not obj.closed:
+            if not obj.closed:
+                # a contract's view of an object is partial unless it says `closed`: an attribute the view does not
+                # list is "the contract does not know", never a Python AttributeError (a harmless refactor that adds a
+                # field to the real class must not read as a raise)
                 raise Unsupported(f"contract view of {obj.kind} has no field {name!r}")
             raise self.mkraise(SExc(AttributeError, (f"{obj.kind!r} object has no attribute {name!r}",)))
         if isinstance(obj, SExc):
